@@ -1,5 +1,130 @@
+/-
+Driver operations for C09: run an operation history on the FSA model and return the three views
+after every step.  Vertices are JSON integers or strings, labels are strings.
+-/
 import GT.Base.JsonQ
-open Lean GT.J
+import GT.Model.FSA
+open Lean GT.J GT
 namespace GT.Driver.C09
-def ops : List (String × Handler) := []
+
+/-- automaton vertices as they travel over the line protocol -/
+inductive Vx
+  | i (n : Int)
+  | s (x : String)
+  deriving DecidableEq, Repr
+
+def vxOf (j : Json) : R Vx :=
+  match j with
+  | .str s => pure (.s s)
+  | .num n => if n.exponent = 0 then pure (.i n.mantissa) else throw "bad vertex"
+  | _ => throw s!"bad vertex {j.compress}"
+
+def vxTo : Vx → Json
+  | .i n => .num ⟨n, 0⟩
+  | .s x => .str x
+
+def listOf {α} (f : Json → R α) (j : Json) : R (List α) := do
+  let a ← arr j
+  a.toList.mapM f
+
+def pairOf {α β} (f : Json → R α) (g : Json → R β) (j : Json) : R (α × β) := do
+  let a ← arr j
+  if h : a.size = 2 then return (← f a[0], ← g a[1]) else throw "expected pair"
+
+def tripleOf {α β γ} (f : Json → R α) (g : Json → R β) (h : Json → R γ) (j : Json) : R (α × β × γ) := do
+  let a ← arr j
+  if _h : a.size = 3 then return (← f a[0], ← g a[1], ← h a[2]) else throw "expected triple"
+
+def dictOf {κ ν} (f : Json → R κ) (g : Json → R ν) (j : Json) : R (Dict κ ν) := listOf (pairOf f g) j
+
+def ofList {α} (f : α → Json) (l : List α) : Json := .arr (l.map f).toArray
+def ofPair {α β} (f : α → Json) (g : β → Json) (p : α × β) : Json := .arr #[f p.1, g p.2]
+def ofDict {κ ν} (f : κ → Json) (g : ν → Json) (d : Dict κ ν) : Json := ofList (ofPair f g) d
+
+def errStr : FSA.Err → String
+  | .keyError => "KeyError"
+  | .indexError => "IndexError"
+  | .fuel => "fuel"
+
+def lift {α} (x : Except FSA.Err α) : R α :=
+  match x with
+  | .ok a => pure a
+  | .error e => throw (errStr e)
+
+abbrev A := FSA Vx String
+
+def viewsTo (lab : L → Json) (s : FSA Vx L) : Json :=
+  Json.mkObj [
+    ("g", ofDict vxTo (ofDict lab vxTo) s.graph),
+    ("o", ofDict vxTo (ofDict vxTo (ofList lab)) s.out),
+    ("i", ofDict vxTo (ofDict vxTo (ofList lab)) s.inn),
+    ("starts", ofList vxTo s.starts)]
+
+/-- relabel the vertices of a model automaton by an injective map (kbmag: ℕ, free: strings) -/
+def mapV {V V' L} (f : V → V') (s : FSA V L) : FSA V' L :=
+  { graph := s.graph.map fun r => (f r.1, r.2.map fun e => (e.1, f e.2)),
+    out := s.out.map fun r => (f r.1, r.2.map fun e => (f e.1, e.2)),
+    inn := s.inn.map fun r => (f r.1, r.2.map fun e => (f e.1, e.2)),
+    starts := s.starts.map f }
+
+def invertGen (g : String) : String := if g.toLower == g then g.toUpper else g.toLower
+
+/-- every construction route -/
+def initOf (j : Json) : R A := do
+  let route ← strf j "route"
+  match route with
+  | "graph" =>
+    let d ← dictOf vxOf (dictOf str vxOf) (← field j "d")
+    return FSA.fromGraphDict d (← listOf vxOf (← field j "starts"))
+  | "out" =>
+    let d ← dictOf vxOf (dictOf vxOf (listOf str)) (← field j "d")
+    return FSA.fromOutDict d (← listOf vxOf (← field j "starts"))
+  | "empty" => return FSA.empty (← listOf vxOf (← field j "starts"))
+  | "free" =>
+    let gens ← listOf str (← field j "gens")
+    return mapV Vx.s (FSA.free invertGen "" gens)
+  | "kbmag" =>
+    let t ← listOf (listOf nat) (← field j "transitions")
+    let labels ← listOf str (← field j "labels")
+    let initial ← listOf nat (← field j "initial")
+    return mapV (fun (n : Nat) => Vx.i (Int.ofNat n)) (FSA.fromKbmag t labels initial)
+  | _ => throw "unknown route"
+
+/-- one operation of a history -/
+def opOf (j : Json) : R (FSA.Op Vx String) := do
+  let k ← strf j "k"
+  match k with
+  | "addv" => return .addVertices (← listOf vxOf (← field j "vs"))
+  | "adde" => return .addEdges (← listOf (tripleOf vxOf vxOf str) (← field j "es")) (← boolf j "ir")
+  | "addel" => return .addEdgesL (← listOf (tripleOf vxOf vxOf (listOf str)) (← field j "es")) (← boolf j "ir")
+  | "delv" => return .deleteVertex (← vxOf (← field j "v"))
+  | "delvs" => return .deleteVertices (← listOf vxOf (← field j "vs"))
+  | "recurrent" => return .recurrent
+  | "rename" => return .rename (← dictOf str str (← field j "m"))
+  | "copy" => return .copy
+  | "hasedge" => return .hasEdge (← vxOf (← field j "t")) (← vxOf (← field j "h"))
+  | _ => throw "unknown op kind"
+
+def stepOf (s : A) (j : Json) : R A := do lift (s.applyOp (← opOf j))
+
+def runSteps : A → List Json → List Json → List Json
+  | _, [], acc => acc.reverse
+  | s, j :: js, acc =>
+    match stepOf s j with
+    | .ok s' => runSteps s' js (viewsTo Json.str s' :: acc)
+    | .error e => (Json.mkObj [("err", .str e)] :: acc).reverse
+
+/-- `{"op":"c09.run","init":{…},"ops":[…]}` → views after construction and after every step;
+the list stops at the first step that raises -/
+def runOp (j : Json) : R Json := do
+  let s ← initOf (← field j "init")
+  let ops ← arr (fieldD j "ops" (.arr #[]))
+  return .arr (runSteps s ops.toList [viewsTo Json.str s]).toArray
+
+/-- run a history without recording -/
+def runQuiet : A → List Json → R A
+  | s, [] => pure s
+  | s, j :: js => do runQuiet (← stepOf s j) js
+
+def ops : List (String × Handler) := [("c09.run", runOp)]
 end GT.Driver.C09
